@@ -303,11 +303,11 @@ func (ip *Inode) Read(atxn *alloctxn.AllocTxn, offset uint64, bytesToRead uint64
 		byteoff := off % disk.BlockSize
 		nbytes := util.Min(disk.BlockSize-byteoff, count-n)
 		blkno, alloc := ip.bmap(atxn, boff)
+		if alloc { // fill in a hole (bmap may have allocated an indirect block even if it failed)
+			ip.WriteInode(atxn)
+		}
 		if blkno == common.NULLBNUM {
 			break
-		}
-		if alloc { // fill in a hole
-			ip.WriteInode(atxn)
 		}
 		buf := atxn.ReadBlock(blkno)
 
@@ -340,12 +340,12 @@ func (ip *Inode) Write(atxn *alloctxn.AllocTxn, offset uint64,
 	}
 	for boff := off / disk.BlockSize; n > uint64(0); boff++ {
 		blkno, new := ip.bmap(atxn, boff)
+		if new { // bmap may have allocated an indirect block even if it failed
+			alloc = true
+		}
 		if blkno == common.NULLBNUM {
 			ok = false
 			break
-		}
-		if new {
-			alloc = true
 		}
 		byteoff := off % disk.BlockSize
 		var nbytes = disk.BlockSize - byteoff
@@ -373,7 +373,9 @@ func (ip *Inode) Write(atxn *alloctxn.AllocTxn, offset uint64,
 			ip.Size = offset + cnt
 		}
 		ip.WriteInode(atxn)
-		return cnt, true
+		if cnt > 0 {
+			return cnt, true
+		}
 	}
 	return cnt, ok
 }
